@@ -236,6 +236,91 @@ func exec(o *vrt.Obs, s scen, tag string) {
 	}
 }
 
+// execRelogin: a refused login followed by another attempt ON THE SAME Session VALUE, with another challenge and with
+// a password store that answers differently by then (the user corrected the password; an auxiliary password became
+// known or unknown): the second answer must be computed from what the callback returns during the second handshake.
+func execRelogin(o *vrt.Obs, s1, s2 scen, tag string) {
+	o.Evals++
+	cur := &s1
+	var libCall string
+	secure := func(addr fbb.Address) (string, error) {
+		s := *cur
+		if strings.EqualFold(addr.Addr, libCall) {
+			return s.primary, nil
+		}
+		for _, a := range s.aux {
+			if strings.EqualFold(a.addr, addr.Addr) {
+				switch a.mode {
+				case 0:
+					return a.pw, nil
+				case 1:
+					return "", nil
+				default:
+					return "", errNoPassword
+				}
+			}
+		}
+		return "", errNoPassword
+	}
+	w1 := b2fx.BaseWorld(tag+"-first", false)
+	libCall = w1.LibCall
+	w1.Plan.Challenge, w1.Plan.ExpectLocator, w1.Plan.RejectLogin = s1.challenge, "JO29PJ", true
+	for _, a := range s1.aux {
+		w1.Aux = append(w1.Aux, a.addr)
+	}
+	w1.Secure = secure
+	run1 := w1.Run(true, [2][]vpipe.Edit{})
+	if run1.Lib.Panic != nil {
+		o.Violations = append(o.Violations, vrt.PanicViolation(run1.Lib.Panic, []byte(run1.Lib.Stack)))
+		return
+	}
+	if run1.Lib.Err == nil || run1.Session == nil || run1.Session.Done() {
+		o.Inconclusive = append(o.Inconclusive, fmt.Sprintf("%s: the refused login did not leave a Session that can be used again (err=%v)", tag, run1.Lib.Err))
+		return
+	}
+	cur = &s2
+	w2 := b2fx.BaseWorld(tag+"-second", false)
+	w2.Plan.Challenge, w2.Plan.ExpectLocator = s2.challenge, "JO29PJ"
+	w2.Session = run1.Session
+	run2 := w2.Run(true, [2][]vpipe.Edit{})
+	res := run2.Res
+	viol := func(key, format string, a ...any) {
+		v := o.Violate(key, format, a...)
+		v.Detail = map[string]any{"first_attempt": fmt.Sprintf("%+v", s1), "second_attempt": fmt.Sprintf("%+v", s2), "handshake_lines_second": res.HandshakeLines, "exchange_error_second": fmt.Sprint(run2.Lib.Err)}
+	}
+	if run2.Lib.Panic != nil {
+		o.Violations = append(o.Violations, vrt.PanicViolation(run2.Lib.Panic, []byte(run2.Lib.Stack)))
+		return
+	}
+	for _, pw := range append([]string{s1.primary, s2.primary}, append(auxPasswords(s1), auxPasswords(s2)...)...) {
+		if len(pw) >= 6 && (bytes.Contains(run1.LibWire, []byte(pw)) || bytes.Contains(run2.LibWire, []byte(pw))) {
+			viol("password-on-wire", "a password appears in the bytes the session wrote")
+		}
+	}
+	if run2.Lib.Err != nil || res.Err != nil {
+		viol("relogin:handshake-failed:"+b2fx.ErrClass(run2.Lib.Err), "second attempt on the same Session did not complete: Exchange=%v peer=%v", run2.Lib.Err, res.Err)
+		return
+	}
+	for _, c := range res.Complaints {
+		viol("judge:"+c.Rule, "reference peer (second attempt): %s", c.Detail)
+	}
+	if want := ";PR: " + secref.Response(s2.challenge, s2.primary); res.LibPR != want {
+		viol("relogin:pr-value", "second attempt, challenge %q: station answered %q, the algorithm gives %q for the password the callback returns NOW (%q for the one it returned at the first attempt)", s2.challenge, res.LibPR, want, ";PR: "+secref.Response(s2.challenge, s1.primary))
+	}
+	wantFW := ";FW: " + strings.ToUpper(w2.LibCall)
+	for _, a := range s2.aux {
+		wantFW += " " + a.addr
+		if a.mode == 0 {
+			wantFW += "|" + secref.Response(s2.challenge, a.pw)
+		}
+	}
+	if res.LibFW != wantFW {
+		viol("relogin:fw-value", "second attempt: station sent %q, expected %q", res.LibFW, wantFW)
+	}
+	o.Count("relogins_on_the_same_session_compared", 1)
+	o.Sig("relogin %q %q", s1.challenge, s2.challenge)
+}
+
 func auxPasswords(s scen) []string {
 	var out []string
 	for _, a := range s.aux {
@@ -273,6 +358,21 @@ func run(c vrt.Case) vrt.Obs {
 		}
 		for i, s := range fixed {
 			exec(&o, s, fmt.Sprintf("fixed-%d", i))
+		}
+		// refused login, then another attempt on the same Session value
+		r := vrt.Rand(p.Seed, "c16-relogin")
+		for i := 0; i < 120; i++ {
+			s1, s2 := genScen(r), genScen(r)
+			s1.primMode, s2.primMode = 0, 0
+			s2.aux = nil
+			for _, a := range s1.aux { // same addresses, what is known about them differs
+				b := auxSpec{addr: a.addr, mode: r.Intn(3)}
+				if b.mode == 0 {
+					b.pw = genPassword(r, "z"+a.addr)
+				}
+				s2.aux = append(s2.aux, b)
+			}
+			execRelogin(&o, s1, s2, fmt.Sprintf("relogin-%d", i))
 		}
 		return o
 	}
